@@ -22,6 +22,7 @@ import (
 	"github.com/olric-data/olric/events"
 	"github.com/olric-data/olric/internal/cluster/partitions"
 	"github.com/olric-data/olric/internal/protocol"
+	"github.com/olric-data/olric/internal/verifhook"
 	"github.com/olric-data/olric/pkg/neterrors"
 	"github.com/olric-data/olric/pkg/storage"
 	"github.com/tidwall/redcon"
@@ -64,7 +65,13 @@ func (dm *DMap) mergeFragments(part *partitions.Partition, fp *fragmentPack) err
 	f.Lock()
 	defer f.Unlock()
 
+	if err := verifhook.Fire("merge.begin", dm.s.rt.This().String(), part.ID()); err != nil {
+		return err
+	}
 	return f.storage.Import(fp.Payload, func(hkey uint64, entry storage.Entry) error {
+		if err := verifhook.Fire("merge.entry", dm.s.rt.This().String(), part.ID()); err != nil {
+			return err
+		}
 		return dm.fragmentMergeFunction(f, hkey, entry)
 	})
 }
